@@ -108,6 +108,18 @@ func c08Check(ctx *Ctx, idx int, cs c08Case) {
 	}
 	ctx.Rep.Count(fmt.Sprintf("batch-len=%d", len(cs.Batch)))
 	b, _ := json.Marshal(body)
+	// JSON allows insignificant whitespace before the first token and between tokens: the same batch,
+	// pretty-printed or sent after a newline, is the same batch
+	switch idx % 4 {
+	case 1:
+		b = append([]byte("\n  "), b...)
+		ctx.Rep.Count("body: whitespace before the array")
+	case 2:
+		if pb, err := json.MarshalIndent(body, "\t", "  "); err == nil {
+			b = append([]byte("\t"), pb...)
+			ctx.Rep.Count("body: indented, tab first")
+		}
+	}
 	f.Data.Counters = map[string]int{}
 	resp := fed.DoRawTimeout(gw, "application/json", b, 20*time.Second)
 	if resp == nil {
